@@ -10,8 +10,10 @@ def strip_ansi(s):
     return ANSI.sub('', s)
 
 
-def parse_diags(stderr):
-    """-> list of (code, basename or None, line or None, col or None) from codespan output (1-based line/col)"""
+def parse_diags(stderr, all_labels=False):
+    """-> list of (code, basename or None, line or None, col or None) from codespan output (1-based line/col).
+    By default one entry per diagnostic (the first snippet header = the primary label); with all_labels one
+    entry per file snippet of the diagnostic (primary and secondary labels in other files)."""
     out = []
     lines = strip_ansi(stderr).split('\n')
     i = 0
@@ -19,14 +21,16 @@ def parse_diags(stderr):
         m = re.match(r'^error\[(P\d+)\]', lines[i])
         if m:
             code = m.group(1)
-            loc = (None, None, None)
+            locs = []
             j = i + 1
             while j < len(lines) and not re.match(r'^(error|warning|bug|note|help)(\[|:)', lines[j]):
-                mm = re.match(r'^\s*┌─ (.*):(\d+):(\d+)\s*$', lines[j])
-                if mm and loc[0] is None:
-                    loc = (os.path.basename(mm.group(1)), int(mm.group(2)), int(mm.group(3)))
+                mm = re.match(r'^\s*(?:┌─|┌──) (.*):(\d+):(\d+)\s*$', lines[j])
+                if mm:
+                    locs.append((os.path.basename(mm.group(1)), int(mm.group(2)), int(mm.group(3))))
                 j += 1
-            out.append((code,) + loc)
+            if not locs: out.append((code, None, None, None))
+            elif all_labels: out += [(code,) + l for l in locs]
+            else: out.append((code,) + locs[0])
             i = j
         else:
             i += 1
@@ -79,5 +83,6 @@ def check_files(files, order=None, as_dir=False, action='check', timeout=60):
             args = [action] + [paths[n] for n in (order or list(files))]
         r = run_cli(args, timeout=timeout)
     r['diags'] = parse_diags(r['stderr'])
+    r['labels'] = parse_diags(r['stderr'], all_labels=True)
     r['ok_line'] = any(l.strip() == 'OK' for l in r['stdout'].split('\n'))
     return r
